@@ -175,6 +175,20 @@ pub struct FaultRun {
 }
 
 /// Re-executes the recorded history `ops` on `world` with one fault.
+fn debug_dump_events(world: &World, label: &str) {
+    if std::env::var("TV_DEBUG").is_err() {
+        return;
+    }
+    for (i, e) in world.log.since(0).iter().enumerate() {
+        match e {
+            crate::events::Ev::Send { txid, verdict } => eprintln!("[{label}] ev{i} send {} {verdict:?}", &txid.to_string()[..8]),
+            crate::events::Ev::GetRaw { txid, found, .. } => eprintln!("[{label}] ev{i} getraw {} {found:?}", &txid.to_string()[..8]),
+            crate::events::Ev::GetBlock { height, hash } => eprintln!("[{label}] ev{i} getblock h={height} {}", &hash.to_string()[..8]),
+            _ => {}
+        }
+    }
+}
+
 pub fn run_faulted(world: &mut World, cfg: &tower::TowerCfg, ops: &[Op], base_snaps: &[Snap], fault: &Fault, salt: u64) -> FaultRun {
     let obs = Arc::new(CrashObserver { count: AtomicUsize::new(0), crash_at: AtomicUsize::new(match fault { Fault::CrashAt(k) => *k, _ => 0 }), names: Mutex::new(vec![]), record: false });
     set_observer(Some(obs.clone()));
@@ -291,6 +305,7 @@ pub fn run_faulted(world: &mut World, cfg: &tower::TowerCfg, ops: &[Op], base_sn
                     v.1.push_str(" — the request in flight replaced an appointment by a smaller one: the slots it frees are returned (and persisted) before the stored appointment is replaced, so after the crash the client's retry is refunded a second time");
                 }
                 fr.violation = Some(v);
+                debug_dump_events(world, "faulted");
                 break;
             }
             Ok(Ok(None)) => {
@@ -468,6 +483,7 @@ pub fn run(seed: u64, shard: u64, nshards: u64, cases: u64, max_points_per_case:
         set_observer(Some(obs.clone()));
         run_case(&mut case);
         set_observer(None);
+        debug_dump_events(&case.world, "reference");
         let r = rep.p("C03");
         if !case.viols.is_empty() || case.tolerated_divergence || case.snaps.len() != case.ops.len() {
             // the uninterrupted run itself is not a valid reference (other properties' business)
